@@ -32,6 +32,7 @@ type Prog struct {
 	Funcs  []*ssa.Function // all functions of module packages (incl. anonymous)
 	cg     *callgraph.Graph
 	medges map[*ssa.Function][]*ssa.Function
+	tws    []textWriteSite
 	proles *PatchRoles
 	Sizes  types.Sizes
 }
